@@ -23,4 +23,16 @@ def expected (cause : String) : String :=
   else if cause == "disconnect" then "torn=1 will=0 witness-alive=1 srvclose=1 goroutines-left=0"
   else "torn=1 will=1 witness-alive=1 srvclose=1 goroutines-left=0"
 
+/-- held take-over scenarios (`life takeover <variant>`): a CONNECT with the client identifier of a connection
+whose teardown is pending behind a third connection that does not read.  What the properties demand, whatever
+the interleaving: the CONNECT is not answered before that teardown has finished (MQTT-3.1.4-2: the existing
+client is disconnected FIRST; `early=0`), the teardown completes once the hold-up ends (`torn=1`), `Server.Close`
+returns, no goroutine is left.  `held=1` is the scenario's premise.  Will, SessionPresent and the kept
+subscription are the reference broker's (`Spec/Broker.lean`), computed by the driver on the scenario's events. -/
+def takeoverVariants : List String := ["resume", "srvclose", "disc"]
+
+def takeoverFixed : List String := ["held=1", "early=0"]
+
+def takeoverEnd : List String := ["srvclose=1", "goroutines-left=0"]
+
 end Mqtt.Spec.Lifecycle
